@@ -176,10 +176,21 @@ pub fn run(ws: &[&str]) -> String {
         other_log.borrow_mut().push((s, format!("S{}", d.as_nanos())));
     };
 
-    let mut req = client.exchange_device_access_token(&details).set_time_fn(time_fn);
-    if let Some(b) = backoff {
-        req = req.set_max_backoff_interval(b);
-    }
+    // builder order varies from case to case: the ceiling is set before or after the time source
+    let order_bit = ws.iter().flat_map(|w| w.bytes()).fold(0xcbf29ce484222325u64, |h, b| (h ^ b as u64).wrapping_mul(0x100000001b3)) >> 17 & 1;
+    let req = if order_bit == 0 {
+        let mut req = client.exchange_device_access_token(&details).set_time_fn(time_fn);
+        if let Some(b) = backoff {
+            req = req.set_max_backoff_interval(b);
+        }
+        req
+    } else {
+        let mut req = client.exchange_device_access_token(&details);
+        if let Some(b) = backoff {
+            req = req.set_max_backoff_interval(b);
+        }
+        req.set_time_fn(time_fn)
+    };
     let var = match parse_variant(variant) {
         Some(v) => v,
         None => return BAD.into(),
